@@ -314,6 +314,13 @@ class Repo:
         self.invoke_cwd = d
         return d
 
+    def cmdline(self, *args):
+        """(argv, cwd) for starting monorail on this repository under a controller: from the repository
+        root, or - after foreign_cwd() - as `-f <abs config>` from the other directory."""
+        if getattr(self, "invoke_cwd", None):
+            return [common.MONORAIL, "-f", os.path.join(self.dir, "Monorail.json")] + list(args), self.invoke_cwd
+        return [common.MONORAIL] + list(args), self.dir
+
     def mr(self, *args, env=None, timeout=120, stdin=None, cwd=None):
         """Runs the hooks-on monorail binary in the repository; returns Result."""
         if getattr(self, "invoke_cwd", None) and cwd is None and "-f" not in args:
